@@ -348,7 +348,7 @@ def classify_xver(line):
     if "cause:stored-type-mismatch" in causes:
         return "copy-keeps-source-type"
     # create_copied_sub_element_at accepts a position in front of the SHORT-NAME of an identifiable element with MIXED content
-    # (visible since parser fix 44e5d22: only a SHORT-NAME that is the first sub element names its parent)
+    # (visible since parser fix f86b268: only a SHORT-NAME that is the first sub element names its parent)
     if f.get("kind") == "copy_at" and causes == ["cause:short-name-not-first"] and probs == ["reload-warning:RequiredSubelementMissing"]:
         return "insert-before-short-name"
     return None
